@@ -67,12 +67,18 @@ def main():
     print(mid, 'confirmed' if confirmed else 'NOT CONFIRMED', {k: meta[k] for k in ('demo_passes_on_clean_tree', 'existing_suite_passes_with_change', 'demo_fails_with_change')}, flush=True)
     if not confirmed:
         print(c.stdout[-800:], t.stdout[-800:], c2.stdout[-800:])
-    # 3. the checks
+    # 3. the checks, run from a snapshot of the machinery so that edits made to
+    # /verif while this evaluation runs cannot disturb it
     meta['checks'] = {}
     if confirmed:
+        snap = scratch + '/verif'
+        sh('rm -rf %s; mkdir -p %s/sim %s/replays' % (snap, snap, snap))
+        sh('cp /verif/check /verif/verif.py /verif/xcfg.py /verif/known_findings.json %s/; cp -r /verif/replays/regress %s/replays/; '
+           'cp -r /verif/sim/src /verif/sim/Cargo.toml /verif/sim/Cargo.lock /verif/sim/.cargo %s/sim/' % (snap, snap, snap))
+        meta['machinery_commit'] = sh('git -C /verif rev-parse --short HEAD').stdout.strip()
         env = dict(os.environ, VERIF_REPO=repo, VERIF_SCRATCH=scratch + '/out', VERIF_SCALE=os.environ.get('SENS_SCALE', '1'))
         for p in PROPS:
-            r = subprocess.run(['/verif/check', p, 'quick'], env=env, stdout=subprocess.PIPE, stderr=subprocess.STDOUT, text=True)
+            r = subprocess.run([snap + '/check', p, 'quick'], env=env, stdout=subprocess.PIPE, stderr=subprocess.STDOUT, text=True)
             lines = [l for l in r.stdout.splitlines() if l.startswith('VIOLATION') or l.startswith('violation:') or l.startswith('  detail') or l.startswith('HARNESS')]
             meta['checks'][p] = {'exit': r.returncode, 'lines': [l[:400] for l in lines[:6]]}
             print('   %s exit=%d %s' % (p, r.returncode, (lines[0][:200] if lines else '')), flush=True)
